@@ -30,6 +30,7 @@ import tempfile
 import time
 import traceback
 
+from ..impl import c13_cfg as cfgk
 from ..translate import c13 as tr
 from ..translate import c13raise as tr_raise
 
@@ -931,6 +932,10 @@ def gen_cases(rng, tier):
             cases.append({"kind": "err", "src": {"text": ""}, "seed": rng.randrange(10 ** 9), "n": 1, "version": rng.choice(["1.0", "2.x"])})
     for _ in range(n_fmt):
         cases.append(gen_fmt_case(rng))
+    for _ in range(300 if quick else 4000):
+        # whole configuration directories: several .co files + config.yml + imports (repeated, circular, missing, standard
+        # library, local modules), Colang 2.x and 1.0, each with an edit that cannot change the meaning
+        cases.append(cfgk.gen_cfg_case(rng))
     return cases
 
 
@@ -1428,6 +1433,8 @@ def run_impl(case):
         return run_err(case)
     if k == "fmt":
         return run_fmt(case)
+    if k == "cfg":
+        return cfgk.run_cfg(case, canon_ast)
     raise ValueError(k)
 
 
@@ -1670,6 +1677,8 @@ def compare(case, obs, mouts):
 
 def oracle(case, obs):
     k = case["kind"]
+    if k == "cfg":
+        return cfgk.oracle_cfg(case, obs)
     if obs.get("sweep"):
         b = obs.get("bad") or obs.get("known_bad")
         if b:
@@ -1782,6 +1791,8 @@ def _last_line_is_bodyless_define(content):
 
 def signature(case, obs, msg):
     k = case["kind"]
+    if k == "cfg":
+        return cfgk.signature_cfg(case, obs, msg)
     if obs.get("sweep"):
         return "eol-comment-pre-expansion-v2" if obs.get("known_bad") and not obs.get("bad") else None
     if k in ("err", "fmt") and obs.get("outcome") == "raised":
@@ -1813,6 +1824,8 @@ def signature(case, obs, msg):
 
 def nontrivial(case, obs):
     k = case["kind"]
+    if k == "cfg":
+        return obs["base"]["outcome"] == "ok" and len(obs["base"].get("parsed", [])) >= 2 or obs["base"]["outcome"] == "raised"
     if obs.get("sweep"):
         return obs.get("tried", 0) > 0
     if k == "tok":
@@ -1826,6 +1839,8 @@ def nontrivial(case, obs):
 
 def tags(case, obs):
     k = case["kind"]
+    if k == "cfg":
+        return cfgk.tags_cfg(case, obs)
     t = ["kind:" + k + (":" + obs["version"] if "version" in obs and k == "file" else "")]
     if obs.get("sweep"):
         t.append("sweep-variants:%d" % (obs.get("tried", 0) // 50 * 50))
@@ -1864,6 +1879,12 @@ def tags(case, obs):
 
 def shrink(case):
     k = case["kind"]
+    if k == "cfg":
+        # few candidates per round, the most aggressive first: the runner evaluates every candidate of a round, and a candidate
+        # that still hangs costs the whole CPU limit
+        import itertools
+        yield from itertools.islice(cfgk.shrink_cfg(case), 12)
+        return
     if k == "file" and not case.get("sweep"):
         # explicit form: the same source with the edits spelled out (then the edits and the text can be shrunk)
         try:
@@ -1986,4 +2007,5 @@ def escalate(rng, focus, tier):
     for _ in range(600):
         cases.append({"kind": "v1", "src": {"text": gen_v1_comment_program(rng)},
                       "edits": [gen_edit_v1(rng, aim="comment") for _ in range(rng.choice([1, 1, 2]))]})
+    cases = [cfgk.gen_cfg_case(rng) for _ in range(400)] + cases
     return comment_sweep_cases() + cont_sweep_cases() + pre_sweep_cases() + cases
